@@ -28,10 +28,13 @@ IGNORE_PATTERNS = [' +', '\\n+', '[ \\n]+', '#[^\\n]*', '~+', '_+']
 IGNORE_SAMPLES = {' +': [' ', '  '], '\\n+': ['\n'], '[ \\n]+': [' ', '\n', ' \n '], '#[^\\n]*': ['#c'],
                   '~+': ['~'], '_+': ['_']}
 
-APPLY_FUNCS = ['lambda v: [v]', 'lambda v: (v, v)', 'str', 'lambda v: None', 'lambda v: {"k": v}',
-               'lambda v: v', 'repr', 'lambda v: [v, v]']
-WHERE_FUNCS = ['lambda v: bool(v)', 'lambda v: len(str(v)) % 2 == 0', 'lambda v: True',
-               'lambda v: len(str(v)) < 6', 'lambda v: "a" in str(v)']
+# none of these looks at class names (the flattened model renames classes per level)
+APPLY_FUNCS = ['lambda v: [v]', 'lambda v: (v, v)', 'lambda v: None', 'lambda v: {"k": v}', 'lambda v: v',
+               'lambda v: [v, v]', 'lambda v: isinstance(v, str)',
+               'lambda v: len(v) if isinstance(v, (str, list)) else v']
+WHERE_FUNCS = ['lambda v: bool(v)', 'lambda v: True', 'lambda v: isinstance(v, str)',
+               'lambda v: not isinstance(v, list) or len(v) % 2 == 0', 'lambda v: v != "a"',
+               'lambda v: isinstance(v, (str, list)) and len(v) < 3']
 
 
 # --------------------------------------------------------------------------------- render
@@ -98,7 +101,7 @@ def render_expr(e):
         rows = []
         for assoc, ops in e[2]:
             rows.append('    %s: %s' % (assoc, ', '.join(render_expr(o) for o in ops)))
-        return render_expr(e[1]) + ' between {\n' + '\n'.join(rows) + '\n}'
+        return '(' + render_expr(e[1]) + ' between {\n' + '\n'.join(rows) + '\n})'
     raise ValueError('unknown expression kind %r' % (k,))
 
 
@@ -266,6 +269,7 @@ class Gen:
         self.features = set(features)
         self.table = {}
         self.tagn = 0
+        self.max_rep_lo = 2
         self.lits = rng.sample(LITS, rng.randint(3, 6))
         self.res = rng.sample([p for p, _, _ in REGEXES], rng.randint(1, 3))
 
@@ -372,6 +376,7 @@ class Gen:
             return ['plus', self.expr(rank, leftmost, True, d, supers)]
         if kind == 'rep':
             lo = r.choice([0, 1, 2]) if not consume else r.choice([1, 2])
+            lo = min(lo, self.max_rep_lo)
             hi = lo + r.choice([0, 1, 2])
             if hi == 0:
                 hi = 1
@@ -436,13 +441,17 @@ class Gen:
         return out
 
 
-def gen_root(rng, named, n_rules=None, hook_p=0.5, ignore=None, features=None):
-    """A root (non-extending) module spec.  Returns (spec, gen) -- gen carries the rule table."""
+def gen_root(rng, named, n_rules=None, hook_p=0.5, ignore=None, features=None, class_start=True, max_rep_lo=2):
+    """A root (non-extending) module spec.  Returns (spec, gen) -- gen carries the rule table.
+    ignore: None = random, 'none' | 'anon' | 'named'."""
     g = Gen(rng, features)
+    g.max_rep_lo = max_rep_lo
     n = n_rules or rng.randint(2, 7)
     names = ['start'] + ['R%d' % i for i in range(1, n)]
     if ignore is None:
         ignore = rng.choice([None, None, 'anon', 'named'])
+    elif ignore == 'none':
+        ignore = None
     items = {}
     # templates first (they are referenced by calls)
     pre = []
@@ -455,7 +464,7 @@ def gen_root(rng, named, n_rules=None, hook_p=0.5, ignore=None, features=None):
         name = names[i]
         rank = float(i)
         as_class = ('classes' in g.features and i > 0 and rng.random() < 0.35) \
-            or ('classes' in g.features and i == 0 and not ignore and rng.random() < 0.15)
+            or ('classes' in g.features and i == 0 and not ignore and class_start and rng.random() < 0.15)
         if as_class:
             name = names[i] = 'C%d' % i
         if i == n - 1:
@@ -527,6 +536,7 @@ def gen_child(rng, parent_gen, hook_p=0.4, ignore=None, allow_super=True):
     """A module spec extending the module described by parent_gen.table.
     Returns (spec, gen) where gen.table is the effective table of the child."""
     g = Gen(rng, parent_gen.features)
+    g.max_rep_lo = parent_gen.max_rep_lo
     g.lits = list(parent_gen.lits)
     g.res = list(parent_gen.res)
     g.tagn = parent_gen.tagn + 100
@@ -553,7 +563,8 @@ def gen_child(rng, parent_gen, hook_p=0.4, ignore=None, allow_super=True):
         info = g.table[nm]
         info['parent_nullable'] = info['nullable']
         consume = not info['nullable']
-        supers = tuple(sorted(n for n, i in g.table.items() if i['kind'] in ('rule', 'class'))) if allow_super else ()
+        # super.<name> only for names the parent chain defines (not for rules new at this level)
+        supers = tuple(sorted(n for n, i in parent_gen.table.items() if i['kind'] in ('rule', 'class'))) if allow_super else ()
         # bias: an override that mentions super.<itself>
         if allow_super and rng.random() < 0.5:
             alt = g.expr(info['rank'], True, consume, 1, supers)
@@ -580,10 +591,20 @@ def gen_child(rng, parent_gen, hook_p=0.4, ignore=None, allow_super=True):
             if rng.random() < 0.5:
                 it['expr'] = ['right', ['hook', g.new_tag()], it['expr']]
     rng.shuffle(items)
+    used = set()
+    for n, i in parent_gen.table.items():
+        if i['kind'] == 'ignore':
+            used.add(i.get('pattern'))
+    used |= set(getattr(parent_gen, 'anon_patterns', ()))
+    free = [p for p in ('~+', '_+', '#[^\\n]*') if p not in used] or ['~+']
+    g.anon_patterns = list(getattr(parent_gen, 'anon_patterns', ()))
     if ignore == 'anon':
-        items.append({'k': 'ignore', 'expr': ['re', '~+']})
+        items.append({'k': 'ignore', 'expr': ['re', free[0]]})
+        g.anon_patterns.append(free[0])
     elif ignore == 'named':
-        items.append({'k': 'rule', 'name': 'Sq%d' % g.tagn, 'ignore': True, 'expr': ['re', '_+']})
+        nm = 'Sq%d' % g.tagn
+        items.append({'k': 'rule', 'name': nm, 'ignore': True, 'expr': ['re', free[0]]})
+        g.table[nm] = {'rank': 1e9, 'nullable': False, 'kind': 'ignore', 'pattern': free[0]}
     spec = {'named': True, 'extends': True, 'items': items}
     return spec, g
 
